@@ -6,7 +6,7 @@
    surplus or excludes somebody. *)
 From Coq Require Import ZArith List Bool String Lia PArith.
 From Droop Require Import Model.KernelBase Model.Str Model.Arith Model.Prelude Model.State Model.Prims Model.RulesGregory
-  Model.Election Proofs.CmdMeta Proofs.Status Proofs.SortLemmas Proofs.Forward Proofs.ForwardOps.
+  Model.Election Proofs.CmdMeta Proofs.Status Proofs.SortLemmas Proofs.Forward Proofs.ForwardOps Proofs.ForwardGreg2.
 Import ListNotations.
 
 (* ================= Part A ================= *)
@@ -110,17 +110,21 @@ Proof.
 Qed.
 
 (* an update that lowers the rank of the candidates it addresses, and strictly for one of them *)
-Lemma mu_upd_lt i f (l : list cand) : (forall c, cid c = i -> rk (f c) <= rk c)%nat ->
+Lemma mu_upd_lt i f (l : list cand) : (forall c, In c l -> cid c = i -> rk (f c) <= rk c)%nat ->
   (exists c, In c l /\ cid c = i /\ (rk (f c) < rk c)%nat) ->
   (musts (stl A (upd_cand A i f l)) < musts (stl A l))%nat.
 Proof.
-  intros Hle. rewrite !mu_cands. unfold upd_cand.
-  assert (Hge: forall l', (fold_right (fun c acc => rk c + acc) 0 (map (fun c => if Z.eqb (cid c) i then f c else c) l') <= fold_right (fun c acc => rk c + acc) 0 l')%nat).
-  { induction l' as [|c l' IH]; cbn [map fold_right]; [lia|]. destruct (Z.eqb (cid c) i) eqn:E; [pose proof (Hle c ltac:(lia))|]; lia. }
-  induction l as [|c l IH]; intros (c0 & Hin & Ei & Hlt); [contradiction|]. cbn [map fold_right].
+  rewrite !mu_cands. unfold upd_cand.
+  assert (Hge: forall l', (forall c, In c l' -> cid c = i -> rk (f c) <= rk c)%nat ->
+             (fold_right (fun c acc => rk c + acc) 0 (map (fun c => if Z.eqb (cid c) i then f c else c) l') <= fold_right (fun c acc => rk c + acc) 0 l')%nat).
+  { induction l' as [|c l' IH]; intros Hle; cbn [map fold_right]; [lia|]. specialize (IH (fun c' Hc' => Hle c' (or_intror Hc'))).
+    destruct (Z.eqb (cid c) i) eqn:E; [pose proof (Hle c (or_introl eq_refl) ltac:(lia))|]; lia. }
+  induction l as [|c l IH]; intros Hle (c0 & Hin & Ei & Hlt); [contradiction|]. cbn [map fold_right].
+  pose proof (Hge l (fun c' Hc' => Hle c' (or_intror Hc'))) as Hl.
   destruct Hin as [->|Hin].
-  - rewrite (proj2 (Z.eqb_eq _ _) Ei). pose proof (Hge l). lia.
-  - specialize (IH (ex_intro _ c0 (conj Hin (conj Ei Hlt)))). destruct (Z.eqb (cid c) i) eqn:E; [pose proof (Hle c ltac:(lia))|]; lia.
+  - rewrite (proj2 (Z.eqb_eq _ _) Ei). lia.
+  - specialize (IH (fun c' Hc' => Hle c' (or_intror Hc')) (ex_intro _ c0 (conj Hin (conj Ei Hlt)))).
+    destruct (Z.eqb (cid c) i) eqn:E; [pose proof (Hle c (or_introl eq_refl) ltac:(lia))|]; lia.
 Qed.
 
 Lemma mu_log t m (s : est) : mu (log_action A cfg t m s) = mu s.
@@ -144,7 +148,7 @@ Qed.
 Lemma sticky_crash (s : est) e : crashed (set_crash s e) = true.
 Proof. unfold crashed, set_crash. cbn [crash]. destruct (crash s); reflexivity. Qed.
 
-Lemma mu_upd_st_lt (s : est) i (f : cand -> cand) : (forall c, cid c = i -> rk (f c) <= rk c)%nat ->
+Lemma mu_upd_st_lt (s : est) i (f : cand -> cand) : (forall c, In c (cands s) -> cid c = i -> rk (f c) <= rk c)%nat ->
   (exists c, In c (cands s) /\ cid c = i /\ (rk (f c) < rk c)%nat) -> (mu (upd A s i f) < mu s)%nat.
 Proof. intros H1 H2. unfold mu, upd. cbn [cands set_cands]. apply mu_upd_lt; assumption. Qed.
 
@@ -161,7 +165,7 @@ Proof.
   destruct (is_pending A c) eqn:Ep; [|rewrite sticky_crash; discriminate]. intros _.
   assert (Hlt: (mu (upd A s i (fun c0 => with_st c0 Elected (Some false))) < mu s)%nat).
   { apply mu_upd_st_lt.
-    - intros c0 _. unfold rk, rank. cbn [fst snd cst cpend with_st pend_true]. lia.
+    - intros c0 _ _. unfold rk, rank. cbn [fst snd cst cpend with_st pend_true]. lia.
     - unfold find_cand in Ef. apply find_some in Ef. destruct Ef as [Hc Hi]. exists c. split; [exact Hc|split; [lia|]].
       unfold rk, rank, is_pending, in_state in *. cbn [fst snd cst cpend with_st pend_true].
       destruct (cst c); cbn in Ep; try discriminate. unfold pend_true. destruct (cpend c) as [[]|]; try discriminate. lia. }
@@ -201,7 +205,7 @@ Proof.
   intros Hnd (c & Hc & Ei). unfold hopefuls in Hc. apply filter_In in Hc. destruct Hc as [Hc Hh].
   unfold defeat. destruct (find_cand A (cands s) i) as [c0|] eqn:Ef.
   - rewrite mu_log. apply mu_upd_st_lt.
-    + intros c1 _. unfold rk, rank. cbn [fst snd cst cpend with_st]. lia.
+    + intros c1 _ _. unfold rk, rank. cbn [fst snd cst cpend with_st]. lia.
     + exists c. split; [exact Hc|split; [exact Ei|]]. unfold rk, rank, in_state in *. cbn [fst snd cst cpend with_st].
       destruct (cst c); cbn in Hh; try discriminate. lia.
   - exfalso. destruct (find_cand_in A (cands s) i) as [y Hy]; [rewrite <- Ei; apply in_map; exact Hc|congruence].
@@ -382,26 +386,37 @@ Proof.
   unfold hopefuls. apply filter_In. split; [exact Hc|]. specialize (HS c Hc Ec). unfold isH in HS. cbn in HS. unfold in_state. rewrite HS. reflexivity.
 Qed.
 
-Lemma fold_defeat_lt msg (L : list cand) : forall s : est, ND A s -> (forall c, In c L -> Sat A s (cid c) isHD) ->
+Lemma fold_defeat_R (g : cand -> string) (L : list cand) : forall s : est, (forall c, In c L -> Sat A s (cid c) isHD) ->
+  R A s (fold_left (fun s c => defeat A cfg (cid c) (g c) s) L s).
+Proof.
+  induction L as [|c L IH]; intros s Hall; cbn [fold_left]; [apply R_refl|].
+  eapply R_trans; [apply r_defeat; [apply R_refl|apply Hall; left; reflexivity]|].
+  apply IH. intros c' Hc'. apply sat_defeat_HD. apply Hall. right; exact Hc'.
+Qed.
+
+Lemma fold_defeat_lt_g (g : cand -> string) (L : list cand) : forall s : est, ND A s -> (forall c, In c L -> Sat A s (cid c) isHD) ->
   (exists c, In c L /\ Sat A s (cid c) isH /\ In (cid c) (map (@cid A) (cands s))) ->
-  (mu (fold_left (fun s c => defeat A cfg (cid c) msg s) L s) < mu s)%nat.
+  (mu (fold_left (fun s c => defeat A cfg (cid c) (g c) s) L s) < mu s)%nat.
 Proof.
   induction L as [|c L IH]; intros s Hnd Hall (c0 & Hin & Hs0 & Hid); [contradiction|]. cbn [fold_left].
-  assert (Hstep: R A s (defeat A cfg (cid c) msg s)) by (apply r_defeat; [apply R_refl|apply Hall; left; reflexivity]).
-  assert (Hnd1: ND A (defeat A cfg (cid c) msg s)) by exact (nd_R A _ _ Hstep Hnd).
-  assert (Hall1: forall c', In c' L -> Sat A (defeat A cfg (cid c) msg s) (cid c') isHD) by (intros c' Hc'; apply sat_defeat_HD; apply Hall; right; exact Hc').
-  assert (Hrest: R A (defeat A cfg (cid c) msg s) (fold_left (fun s c => defeat A cfg (cid c) msg s) L (defeat A cfg (cid c) msg s)))
-    by (apply f_fold_defeat; [apply R_refl|exact Hall1]).
+  assert (Hstep: R A s (defeat A cfg (cid c) (g c) s)) by (apply r_defeat; [apply R_refl|apply Hall; left; reflexivity]).
+  assert (Hnd1: ND A (defeat A cfg (cid c) (g c) s)) by exact (nd_R A _ _ Hstep Hnd).
+  assert (Hall1: forall c', In c' L -> Sat A (defeat A cfg (cid c) (g c) s) (cid c') isHD) by (intros c' Hc'; apply sat_defeat_HD; apply Hall; right; exact Hc').
+  pose proof (fold_defeat_R g L _ Hall1) as Hrest.
   destruct (Z.eq_dec (cid c) (cid c0)) as [E|E].
   - assert (Hex: exists c1, In c1 (hopefuls A s) /\ cid c1 = cid c) by (rewrite E; exact (hop_exists s (cid c0) Hnd Hs0 Hid)).
-    pose proof (defeat_hopeful_lt (cid c) msg s Hnd Hex) as Hlt. pose proof (mu_R _ _ Hrest). lia.
+    pose proof (defeat_hopeful_lt (cid c) (g c) s Hnd Hex) as Hlt. pose proof (mu_R _ _ Hrest). lia.
   - destruct Hin as [->|Hin]; [congruence|].
-    assert (Hlt: (mu (fold_left (fun s c => defeat A cfg (cid c) msg s) L (defeat A cfg (cid c) msg s)) < mu (defeat A cfg (cid c) msg s))%nat).
+    assert (Hlt: (mu (fold_left (fun s c => defeat A cfg (cid c) (g c) s) L (defeat A cfg (cid c) (g c) s)) < mu (defeat A cfg (cid c) (g c) s))%nat).
     { apply IH; [exact Hnd1|exact Hall1|]. exists c0. split; [exact Hin|split].
       - apply sat_defeat_other; [congruence|exact Hs0].
       - rewrite <- (R_cids A _ _ Hstep). exact Hid. }
     pose proof (mu_R _ _ Hstep). lia.
 Qed.
+Lemma fold_defeat_lt msg (L : list cand) : forall s : est, ND A s -> (forall c, In c L -> Sat A s (cid c) isHD) ->
+  (exists c, In c L /\ Sat A s (cid c) isH /\ In (cid c) (map (@cid A) (cands s))) ->
+  (mu (fold_left (fun s c => defeat A cfg (cid c) msg s) L s) < mu s)%nat.
+Proof. exact (fold_defeat_lt_g (fun _ => msg) L). Qed.
 
 
 Definition BatchE (s : est) : Prop := lv_batch s <> [] -> exists c, In c (hopefuls A s) /\ In (cid c) (lv_batch s).
@@ -502,6 +517,328 @@ Proof.
     destruct (crashed (unpend_all A cfg s2)); eexists; reflexivity.
 Qed.
 
+
+(* ---- cfer, cfer-batch ---- *)
+Lemma cfer_find_batch_E (s : est) : BatchE (cfer_find_batch A cfg s).
+Proof.
+  unfold BatchE, cfer_find_batch. cbn [lv_batch set_batch hopefuls cands]. destruct (cf_batch cfg); [|intros H; contradiction].
+  pose proof (cfer_batch_hopeful A cfg s) as HF. rewrite Forall_forall in HF.
+  destruct (cfer_batch A cfg s) as [|c l]; [intros H; contradiction|]. intros _.
+  exists c. split; [apply (HF c); left; reflexivity|left; reflexivity].
+Qed.
+
+Definition tall_step (s : est) (c : cand) : est :=
+  if crashed s then s else
+  let h := cid c in
+  let s2 := unpend A cfg h (Some "Transfer surplus") s in
+  if crashed s2 then s2 else
+  let surp := sub A (cvote_of A s2 h) (quota s2) in
+  let s3 := for_ballots A (reweigh_transfer A (is_hopeful A) (rew_wigm A) h surp) (top_is A h) s2 in
+  if crashed s3 then s3 else
+  let s4 := set_vote A h (quota s3) s3 in
+  log_action A cfg TTransfer ("Surplus transferred: " ++ cname_of A s4 h ++ " (" ++ str A surp ++ ")") s4.
+
+Lemma tall_step_R (t : est) c : ND A t -> R A t (tall_step t c).
+Proof.
+  intros Hnd. unfold tall_step. destruct (crashed t); [apply R_refl|]. cbv zeta.
+  assert (P2: R A t (unpend A cfg (cid c) (Some "Transfer surplus") t)) by (apply f_unpend; [apply R_refl|exact Hnd]).
+  destruct (crashed (unpend A cfg (cid c) _ t)); [exact P2|].
+  match goal with |- context[for_ballots A ?f ?sel ?st] =>
+    assert (P3: R A t (for_ballots A f sel st)) by (apply f_for_ballots; [intros; apply f_reweigh; assumption|exact P2]) end.
+  match goal with |- context[crashed ?st] => destruct (crashed st) end; [exact P3|].
+  apply f_log, f_set_vote. exact P3.
+Qed.
+Lemma tall_fold_R (L : list cand) : forall t : est, ND A t -> R A t (fold_left tall_step L t).
+Proof.
+  induction L as [|c L IH]; intros t Hnd; cbn [fold_left]; [apply R_refl|].
+  pose proof (tall_step_R t c Hnd) as H1. eapply R_trans; [exact H1|]. apply IH. exact (nd_R A _ _ H1 Hnd).
+Qed.
+Lemma tall_fold_crashed (L : list cand) : forall t : est, crashed t = true -> fold_left tall_step L t = t.
+Proof. induction L as [|c L IH]; intros t Hc; cbn [fold_left]; [reflexivity|]. unfold tall_step at 2. rewrite Hc. apply IH. exact Hc. Qed.
+
+Lemma tall_step_lt (t : est) c : crashed (tall_step t c) = false -> (mu (tall_step t c) < mu t)%nat.
+Proof.
+  unfold tall_step. destruct (crashed t) eqn:Ct; [congruence|]. cbv zeta.
+  set (s2 := unpend A cfg (cid c) (Some "Transfer surplus") t).
+  destruct (crashed s2) eqn:C2; [congruence|]. pose proof (unpend_lt (cid c) _ t C2) as H2. fold s2 in H2.
+  set (s3 := for_ballots A _ _ s2).
+  assert (R3: R A s2 s3) by (apply f_for_ballots; [intros; apply f_reweigh; assumption|apply R_refl]).
+  destruct (crashed s3) eqn:C3; [congruence|]. intros _.
+  rewrite mu_log. pose proof (mu_R _ _ (f_set_vote A s2 (cid c) (quota s3) s3 R3)). lia.
+Qed.
+
+Lemma cfer_tall_lt (s : est) : ND A s -> pendings A s <> [] ->
+  crashed (cfer_transfer_all_pending A cfg s) = false -> (mu (cfer_transfer_all_pending A cfg s) < mu s)%nat.
+Proof.
+  intros Hnd Hne. unfold cfer_transfer_all_pending.
+  change (fold_left _ (pendings A s) s) with (fold_left tall_step (pendings A s) s).
+  destruct (pendings A s) as [|c L]; [congruence|]. cbn [fold_left]. intros Hc.
+  destruct (crashed (tall_step s c)) eqn:C1; [rewrite (tall_fold_crashed L _ C1) in Hc; congruence|].
+  pose proof (tall_step_lt s c C1) as H1.
+  pose proof (mu_R _ _ (tall_fold_R L _ (nd_R A _ _ (tall_step_R s c Hnd) Hnd))). lia.
+Qed.
+
+Lemma cfer_defeat_low_lt (s : est) : ND A s -> crashed (cfer_defeat_low A cfg s) = false -> (mu (cfer_defeat_low A cfg s) < mu s)%nat.
+Proof.
+  intros Hnd. unfold cfer_defeat_low. destruct (low_candidates A s) as [[lv lows]|] eqn:El; [|rewrite sticky_crash; discriminate].
+  destruct (bt_simple_ok A cfg "defeat" lows s) as (_ & Ec & Hin). pose proof (bt_simple_total "defeat" lows s) as Hn.
+  destruct (bt_simple A cfg "defeat" lows s) as [s1 [l|]]; cbn [fst snd] in *; [|intros Hc; rewrite (Hn eq_refl) in Hc; discriminate].
+  intros _. destruct (Hin l eq_refl) as (t & Ht & Et).
+  assert (Hnd1: ND A s1) by (unfold ND in *; rewrite Ec; exact Hnd).
+  assert (Hh1: exists c, In c (hopefuls A s1) /\ cid c = l).
+  { exists t. split; [|exact Et]. unfold hopefuls. rewrite Ec. exact (low_in_hopefuls A s lv lows El t Ht). }
+  pose proof (defeat_hopeful_lt l "Defeat" s1 Hnd1 Hh1) as H2.
+  assert (E1: mu s1 = mu s) by (unfold mu; rewrite Ec; reflexivity).
+  change (mu (set_batch (defeat A cfg l "Defeat" s1) [l])) with (mu (defeat A cfg l "Defeat" s1)). lia.
+Qed.
+
+Definition cfer_body : cmd est :=
+  Do (new_round A cfg) ;;
+  Ite (fun s => (round s =? 1)%Z && (nlen (hopefuls A s) <=? cf_nseats cfg)%Z)
+    (Do (fun s => fold_left (fun s c => elect A cfg (cid c) "Elect all" false s) (hopefuls A s) s) ;; Break)
+    Skip ;;
+  Do (elect_with_quota A cfg (ge_quota A) (gt_quota A) None (fun _ => true)) ;;
+  Ite (fun s => (cf_nseats cfg <=? nlen (electeds A s))%Z)
+    (Do (unpend_all A cfg) ;;
+     Do (fun s => fold_left (fun s c => defeat A cfg (cid c) "Defeat remaining" s) (hopefuls A s) s) ;;
+     Break)
+    Skip ;;
+  Do (cfer_find_batch A cfg) ;;
+  Ite (fun s => nonempty (lv_batch s))
+    (Do (defeat_batch_in_ballot_order A cfg "Defeat batch"))
+    (Ite (fun s => nonempty (pendings A s))
+       (Do (cfer_transfer_all_pending A cfg))
+       (Do (cfer_defeat_low A cfg))) ;;
+  Ite (fun s => nonempty (lv_batch s))
+    (Ite (fun s => (nlen (hopefuls A s) + nlen (electeds A s) <=? cf_nseats cfg)%Z)
+       (Do (fun s => fold_left (fun s c => elect A cfg (cid c) "Elect pending" false s) (pendings A s) s) ;;
+        Do (fun s => fold_left (fun s c => elect A cfg (cid c) "Elect remaining" false s) (hopefuls A s) s) ;;
+        Break)
+       Skip ;;
+     Do (transfer_batch A cfg (is_hopeful A)))
+    Skip.
+
+Lemma do_break (P : est -> Prop) f (Qn Qc : est -> Prop) : T3 P (Do f ;; Break) Qn (fun _ => True) Qc.
+Proof. eapply t_seq with (M := fun _ => True); [apply t_do; auto|apply t_break'; auto]. Qed.
+
+Lemma cfer_body_decreases n :
+  T3 (fun s => ND A s /\ true = true /\ mu s = n) cfer_body (NDlt n) (fun _ => True) (NDlt n).
+Proof.
+  unfold cfer_body.
+  eapply t_seq with (M := NDm n).
+  { apply t_do. intros s (Hnd & _ & Hm). apply step_le; [intros t Ht; apply f_new_round, R_refl|split; [exact Hnd|lia]]. }
+  eapply t_seq with (M := NDm n); [apply t_ite; [apply do_break|apply t_skip'; intros s [H _]; exact H]|].
+  eapply t_seq with (M := NDm n).
+  { apply t_do. intros s H. apply step_le; [|exact H]. intros t Ht. apply f_elect_with_quota; [apply R_refl|exact Ht]. }
+  eapply t_seq with (M := NDm n).
+  { apply t_ite; [|apply t_skip'; intros s [H _]; exact H].
+    eapply t_seq with (M := fun _ => True); [apply t_do; auto|apply do_break]. }
+  eapply t_seq with (M := fun s => NDm n s /\ BatchH A s /\ BatchE s).
+  { apply t_do. intros s [Hnd Hm]. split; [split; [exact Hnd|exact Hm]|split; [apply cfer_find_batch_H; exact Hnd|apply cfer_find_batch_E]]. }
+  eapply t_seq with (M := NDlt n).
+  { apply t_ite.
+    - apply t_do. intros s [[[Hnd Hm] [HB HE]] Hg].
+      assert (Hne: lv_batch s <> []) by (destruct (lv_batch s); [discriminate Hg|discriminate]).
+      pose proof (batch_order_lt "Defeat batch" s Hnd HB HE Hne) as Hlt.
+      split; [|lia]. exact (nd_R A s _ (f_defeat_batch_order A cfg s _ s (R_refl A s) HB) Hnd).
+    - apply t_ite.
+      + apply t_do_nc. intros s [[[[Hnd Hm] _] _] Hp] Hc.
+        assert (Hne: pendings A s <> []) by (destruct (pendings A s); [discriminate Hp|discriminate]).
+        pose proof (cfer_tall_lt s Hnd Hne Hc) as Hlt. split; [|lia].
+        exact (nd_R A s _ (f_cfer_transfer_all A cfg s s (R_refl A s) Hnd) Hnd).
+      + apply t_do_nc. intros s [[[[Hnd Hm] _] _] _] Hc. pose proof (cfer_defeat_low_lt s Hnd Hc) as Hlt. split; [|lia].
+        exact (nd_R A s _ (f_cfer_defeat_low A cfg s s (R_refl A s) Hnd) Hnd). }
+  apply t_ite; [|apply t_skip'; intros s [H _]; exact H].
+  eapply t_seq with (M := NDlt n).
+  { apply t_ite; [|apply t_skip'; intros s [[H _] _]; exact H].
+    eapply t_seq with (M := fun _ => True); [apply t_do; auto|apply do_break]. }
+  apply t_do. intros s [Hnd Hm]. pose proof (f_transfer_batch A cfg s (is_hopeful A) s (R_refl A s)) as Hr.
+  split; [exact (nd_R A s _ Hr Hnd)|pose proof (mu_R _ _ Hr); lia].
+Qed.
+
+Theorem cfer_total fuel (s : est) : ND A s ->
+  (2 * List.length (cands s) < Pos.to_nat fuel)%nat -> exists r, exec (@crashed A) fuel (cfer A cfg) s = Some r.
+Proof.
+  intros Hnd Hf. change (cfer A cfg) with
+    (Do (fun s => log_action A cfg TBegin "Begin Count" (start_count A (droop_quota_eps A cfg) s)) ;;
+     While (fun _ => true) cfer_body).
+  cbn [exec].
+  set (s1 := log_action A cfg TBegin "Begin Count" (start_count A (droop_quota_eps A cfg) s)).
+  assert (R1: R A s s1) by (apply f_log, f_start_count, R_refl).
+  destruct (crashed s1); [eexists; reflexivity|].
+  destruct (while_total est (@crashed A) (ND A) mu (fun _ => true) cfer_body fuel) with (s := s1) as [[s2 k2] E2].
+  - unfold cfer_body. cbn [loopfree]. tauto.
+  - intros n. eapply t_conseq; [| | | |apply (cfer_body_decreases n)]; cbv beta; auto.
+  - exact (nd_R A s s1 R1 Hnd).
+  - pose proof (mu_R _ _ R1). pose proof (mu_bound s). lia.
+  - cbn [exec] in E2. rewrite E2. eexists; reflexivity.
+Qed.
+
+
+(* ---- mpls ---- *)
+Lemma mpls_find_defeats_E (s : est) : crashed (mpls_find_defeats A cfg s) = false -> BatchE (mpls_find_defeats A cfg s).
+Proof.
+  unfold mpls_find_defeats. cbv zeta.
+  match goal with |- context[match ?u with Ok _ => _ | Raise _ => _ end] => destruct u as [uv|e] end; [|rewrite sticky_crash; discriminate].
+  intros _. unfold BatchE. cbn [lv_batch set_batch hopefuls cands].
+  set (und := if (round s =? 2)%Z then filter (@cundecl A) (hopefuls A s) else []).
+  set (losers := find_certain_losers A cfg _ s).
+  set (losers' := filter _ losers).
+  assert (Hall: forall c, In c (und ++ losers') -> In c (hopefuls A s)).
+  { intros c Hc. apply in_app_or in Hc. destruct Hc as [Hc|Hc].
+    - unfold und in Hc. destruct (round s =? 2)%Z; [apply filter_In in Hc; exact (proj1 Hc)|contradiction].
+    - unfold losers' in Hc. apply filter_In in Hc. destruct Hc as [Hc _].
+      pose proof (certain_losers_hopeful A cfg (if (round s =? 2)%Z then add A (surplus s) uv else surplus s) s) as F. rewrite Forall_forall in F. exact (F c Hc). }
+  destruct (und ++ losers')%list as [|c l]; [intros H; contradiction|]. intros _.
+  exists c. split; [apply Hall; left; reflexivity|left; reflexivity].
+Qed.
+
+Lemma mpls_defeat_batch_lt (s : est) : ND A s -> BatchH A s -> BatchE s -> lv_batch s <> [] ->
+  (mu (mpls_defeat_batch A cfg s) < mu s)%nat.
+Proof.
+  intros Hnd HB HE Hne. unfold mpls_defeat_batch. cbv zeta. rewrite mu_log.
+  set (g := fun c : cand => if cundecl c then "Defeat undeclared write-in" else "Defeat certain loser").
+  set (s1 := fold_left _ (cands_of A s (lv_batch s)) s).
+  assert (H1: (mu s1 < mu s)%nat).
+  { unfold s1. apply (fold_defeat_lt_g g); [exact Hnd| |].
+    - intros c Hc. destruct (cands_of_in A s _ c Hc) as [_ Hi]. intros c' Hc' E. left. exact (HB (cid c) Hi c' Hc' E).
+    - destruct (HE Hne) as (c0 & Hc0 & Hi0). unfold hopefuls in Hc0. apply filter_In in Hc0. destruct Hc0 as [Hc0 _].
+      destruct (find_cand_in A (cands s) (cid c0)) as [c1 Ef]; [apply in_map; exact Hc0|].
+      assert (E1: cid c1 = cid c0) by (unfold find_cand in Ef; apply find_some in Ef; destruct Ef as [_ Ee]; lia).
+      exists c1. split; [|split].
+      + unfold cands_of. apply in_flat_map. exists (cid c0). split; [exact Hi0|]. rewrite Ef. left; reflexivity.
+      + rewrite E1. exact (HB (cid c0) Hi0).
+      + rewrite E1. apply in_map. exact Hc0. }
+  match goal with |- (mu (set_surplus ?t _) < _)%nat => assert (H2: R A s1 t) end.
+  { apply f_fold0; [intros; apply f_set_vote; assumption|]. apply f_for_ballots; [intros; apply f_transfer; assumption|apply R_refl]. }
+  match goal with |- (mu (set_surplus ?t _) < _)%nat => change (mu t < mu s)%nat end.
+  pose proof (mu_R _ _ H2). lia.
+Qed.
+
+Lemma elect_hopeful_lt i m p (s : est) : ND A s -> (exists c, In c (hopefuls A s) /\ cid c = i) -> (mu (elect A cfg i m p s) < mu s)%nat.
+Proof.
+  intros Hnd (c & Hc & Ei). unfold hopefuls in Hc. apply filter_In in Hc. destruct Hc as [Hc Hh].
+  unfold elect. destruct (find_cand A (cands s) i) as [c0|] eqn:Ef.
+  - rewrite mu_log. apply mu_upd_st_lt.
+    + intros c1 Hc1 E1. assert (c1 = c) by (apply (nodup_cid_inj A (cands s)); [exact Hnd|exact Hc|exact Hc1|congruence]). subst c1.
+      unfold rk, rank, in_state in *. cbn [fst snd cst cpend with_st pend_true]. destruct (cst c); cbn in Hh; try discriminate. destruct p; lia.
+    + exists c. split; [exact Hc|split; [exact Ei|]]. unfold rk, rank, in_state in *. cbn [fst snd cst cpend with_st pend_true].
+      destruct (cst c); cbn in Hh; try discriminate. destruct p; lia.
+  - exfalso. destruct (find_cand_in A (cands s) i) as [y Hy]; [rewrite <- Ei; apply in_map; exact Hc|congruence].
+Qed.
+
+Lemma mpls_elect_high_lt (s : est) : ND A s -> crashed (mpls_elect_high A cfg s) = false -> (mu (mpls_elect_high A cfg s) < mu s)%nat.
+Proof.
+  intros Hnd. unfold mpls_elect_high. cbv zeta. destruct (max_vote A _) as [hv|]; [|rewrite sticky_crash; discriminate].
+  set (tied := filter (fun c => eqv A (cvote c) hv) (hopeful_with_quota A false s)).
+  destruct (bt_simple_ok A cfg "largest surplus" tied s) as (_ & Ec & Hin). pose proof (bt_simple_total "largest surplus" tied s) as Hn.
+  destruct (bt_simple A cfg "largest surplus" tied s) as [s1 [h|]]; cbn [fst snd] in *; [|intros Hc; rewrite (Hn eq_refl) in Hc; discriminate].
+  destruct (Hin h eq_refl) as (c & Hct & Eh).
+  assert (Hch: In c (hopefuls A s)) by (unfold tied in Hct; apply filter_In in Hct; exact (hwq_in A s false c (proj1 Hct))).
+  assert (Hnd1: ND A s1) by (unfold ND in *; rewrite Ec; exact Hnd).
+  assert (Hh1: exists c', In c' (hopefuls A s1) /\ cid c' = h) by (exists c; split; [unfold hopefuls; rewrite Ec; exact Hch|exact Eh]).
+  pose proof (elect_hopeful_lt h "Elect" false s1 Hnd1 Hh1) as H2.
+  assert (E1: mu s1 = mu s) by (unfold mu; rewrite Ec; reflexivity).
+  set (s2 := elect A cfg h "Elect" false s1) in *.
+  destruct (crashed s2) eqn:C2; [congruence|].
+  set (s3 := for_ballots A _ _ s2).
+  assert (R3: R A s2 s3) by (apply f_for_ballots; [intros; apply f_reweigh; assumption|apply R_refl]).
+  destruct (crashed s3) eqn:C3; [congruence|]. intros _.
+  rewrite mu_log. match goal with |- (mu (set_surplus ?t _) < _)%nat => change (mu t < mu s)%nat end.
+  pose proof (mu_R _ _ (f_set_vote A s2 h (quota s3) s3 R3)). lia.
+Qed.
+
+Lemma mpls_defeat_low_lt (s : est) : ND A s -> crashed (mpls_defeat_low A cfg s) = false -> (mu (mpls_defeat_low A cfg s) < mu s)%nat.
+Proof.
+  intros Hnd. unfold mpls_defeat_low. destruct (low_candidates A s) as [[lv lows]|] eqn:El; [|rewrite sticky_crash; discriminate].
+  destruct (bt_simple_ok A cfg "defeat low candidate" lows s) as (_ & Ec & Hin). pose proof (bt_simple_total "defeat low candidate" lows s) as Hn.
+  destruct (bt_simple A cfg "defeat low candidate" lows s) as [s1 [l|]]; cbn [fst snd] in *; [|intros Hc; rewrite (Hn eq_refl) in Hc; discriminate].
+  destruct (Hin l eq_refl) as (t & Ht & Et).
+  assert (Hnd1: ND A s1) by (unfold ND in *; rewrite Ec; exact Hnd).
+  assert (Hh1: exists c, In c (hopefuls A s1) /\ cid c = l).
+  { exists t. split; [|exact Et]. unfold hopefuls. rewrite Ec. exact (low_in_hopefuls A s lv lows El t Ht). }
+  pose proof (defeat_hopeful_lt l "Defeat low candidate" s1 Hnd1 Hh1) as H2.
+  assert (E1: mu s1 = mu s) by (unfold mu; rewrite Ec; reflexivity).
+  cbv zeta. set (s2 := defeat A cfg l "Defeat low candidate" s1) in *.
+  destruct (crashed s2) eqn:C2; [congruence|]. intros _.
+  destruct (seats_left A cfg s2 <? nlen (hopefuls A s2))%Z; [|lia].
+  rewrite mu_log. match goal with |- (mu (set_surplus ?t _) < _)%nat => change (mu t < mu s)%nat end.
+  match goal with |- (mu (set_vote A l ?v ?t3) < _)%nat => assert (R3: R A s2 t3) by (apply f_for_ballots; [intros; apply f_transfer; assumption|apply R_refl]);
+    pose proof (mu_R _ _ (f_set_vote A s2 l v t3 R3)) end. lia.
+Qed.
+
+Definition mpls_body : cmd est :=
+  Do (fun s => log_action A cfg TCount "Count Votes" (set_surplus s (mpls_surplus A true s))) ;;
+  Ite (fun s => (cf_nseats cfg <=? nlen (electeds A s) + nlen (hopeful_with_quota A true s))%Z)
+    (Do (fun s => fold_left (fun s c => elect A cfg (cid c) "Candidate at threshold" false s)
+                            (hopeful_with_quota A true s) s) ;; Break)
+    Skip ;;
+  Do (new_round A cfg) ;;
+  Do (mpls_find_defeats A cfg) ;;
+  Ite (fun s => nonempty (lv_batch s)) (Do (mpls_defeat_batch A cfg) ;; Continue) Skip ;;
+  Ite (fun s => nonempty (hopeful_with_quota A false s)) (Do (mpls_elect_high A cfg) ;; Continue) Skip ;;
+  Ite (fun s => (seats_left A cfg s <? nlen (hopefuls A s))%Z) (Do (mpls_defeat_low A cfg)) Skip ;;
+  Ite (fun s => (nlen (hopefuls A s) <=? seats_left A cfg s)%Z) Break Skip.
+
+Lemma mpls_body_decreases n :
+  T3 (fun s => ND A s /\ true = true /\ mu s = n) mpls_body (NDlt n) (fun _ => True) (NDlt n).
+Proof.
+  unfold mpls_body.
+  eapply t_seq with (M := NDm n).
+  { apply t_do. intros s (Hnd & _ & Hm).
+    apply (step_le (fun s => log_action A cfg TCount "Count Votes" (set_surplus s (mpls_surplus A true s))) n); [intros t Ht; apply f_log, f_surplus, R_refl|split; [exact Hnd|lia]]. }
+  eapply t_seq with (M := NDm n); [apply t_ite; [apply do_break|apply t_skip'; intros s [H _]; exact H]|].
+  eapply t_seq with (M := NDm n); [apply t_do; intros s H; apply step_le; [intros t Ht; apply f_new_round, R_refl|exact H]|].
+  eapply t_seq with (M := fun s => NDm n s /\ BatchH A s /\ BatchE s).
+  { apply t_do_nc. intros s [Hnd Hm] Hc. destruct (mpls_find_defeats_ok A cfg s s (R_refl A s) Hnd Hc) as [Hr HB].
+    split; [split; [exact (nd_R A _ _ Hr Hnd)|pose proof (mu_R _ _ Hr); lia]|split; [exact HB|apply mpls_find_defeats_E; exact Hc]]. }
+  eapply t_seq with (M := NDm n).
+  { apply t_ite; [|apply t_skip'; intros s [[H _] _]; exact H].
+    eapply t_seq with (M := NDlt n); [|apply t_continue'; auto].
+    apply t_do. intros s [[[Hnd Hm] [HB HE]] Hg].
+    assert (Hne: lv_batch s <> []) by (destruct (lv_batch s); [discriminate Hg|discriminate]).
+    pose proof (mpls_defeat_batch_lt s Hnd HB HE Hne) as Hlt. split; [|lia].
+    exact (nd_R A s _ (f_mpls_defeat_batch A cfg s s (R_refl A s) HB) Hnd). }
+  eapply t_seq with (M := NDm n).
+  { apply t_ite; [|apply t_skip'; intros s [H _]; exact H].
+    eapply t_seq with (M := NDlt n); [|apply t_continue'; auto].
+    apply t_do_nc. intros s [[Hnd Hm] _] Hc. pose proof (mpls_elect_high_lt s Hnd Hc) as Hlt. split; [|lia].
+    exact (nd_R A s _ (f_mpls_elect_high A cfg s s (R_refl A s) Hnd) Hnd). }
+  eapply t_seq with (M := fun s => NDlt n s \/ (seats_left A cfg s <? nlen (hopefuls A s))%Z = false).
+  { apply t_ite.
+    - apply t_do_nc. intros s [[Hnd Hm] _] Hc. left. pose proof (mpls_defeat_low_lt s Hnd Hc) as Hlt. split; [|lia].
+      exact (nd_R A s _ (f_mpls_defeat_low A cfg s s (R_refl A s) Hnd) Hnd).
+    - apply t_skip'. intros s [_ Hg]. right. exact Hg. }
+  apply t_ite; [apply t_break'; auto|]. apply t_skip'. intros s [[H|Hg] Hc]; [exact H|].
+  exfalso. apply Z.ltb_ge in Hg. apply Z.leb_gt in Hc. lia.
+Qed.
+
+Theorem mpls_total fuel (s : est) : ND A s ->
+  (2 * List.length (cands s) < Pos.to_nat fuel)%nat -> exists r, exec (@crashed A) fuel (mpls A cfg) s = Some r.
+Proof.
+  intros Hnd Hf. change (mpls A cfg) with
+    (Do (fun s => new_round A cfg (start_count A (Ok (integer_droop_quota A cfg)) s)) ;;
+     While (fun _ => true) mpls_body ;;
+     Ite (fun s => (nlen (hopefuls A s) <=? seats_left A cfg s)%Z)
+       (Do (fun s => fold_left (fun s c => elect A cfg (cid c) "Elect remaining candidates" false s) (hopefuls A s) s)) Skip ;;
+     Ite (fun s => nonempty (hopefuls A s))
+       (Do (fun s => fold_left (fun s c => defeat A cfg (cid c) "Defeat remaining candidates" s) (hopefuls A s) s)) Skip).
+  cbn [exec].
+  set (s1 := new_round A cfg (start_count A (Ok (integer_droop_quota A cfg)) s)).
+  assert (R1: R A s s1) by (apply f_new_round, f_start_count, R_refl).
+  destruct (crashed s1); [eexists; reflexivity|].
+  destruct (while_total est (@crashed A) (ND A) mu (fun _ => true) mpls_body fuel) with (s := s1) as [[s2 k2] E2].
+  - unfold mpls_body. cbn [loopfree]. tauto.
+  - intros n. eapply t_conseq; [| | | |apply (mpls_body_decreases n)]; cbv beta; auto.
+  - exact (nd_R A s s1 R1 Hnd).
+  - pose proof (mu_R _ _ R1). pose proof (mu_bound s). lia.
+  - cbn [exec] in E2. rewrite E2. destruct k2; try (eexists; reflexivity).
+    match goal with |- context[if ?b then _ else _] => destruct b end.
+    + match goal with |- context[crashed ?t] => destruct (crashed t) end; [eexists; reflexivity|].
+      match goal with |- context[if ?b then _ else _] => destruct b end; eexists; reflexivity.
+    + match goal with |- context[if ?b then _ else _] => destruct b end; eexists; reflexivity.
+Qed.
+
 End Greg.
 
 (* ================= whole counts ================= *)
@@ -527,10 +864,11 @@ Proof.
   rewrite G. reflexivity.
 Qed.
 
-(* wigm (any options but defeat_batch=zero), wigm-prf, wigm-prf-batch, scotland: under any arithmetic a count never runs out of
-   fuel once the fuel exceeds twice the number of candidates: exec answers Some -- the count ends, normally or with one of
-   the modelled exceptions *)
-Definition term_rule (r : rule) : Prop := (r = RWigm /\ cf_batch_zero cfg = false) \/ r = RWigmPrf \/ r = RScotland.
+(* the Gregory family -- wigm (any options but defeat_batch=zero), wigm-prf(-batch), scotland, cfer(-batch), mpls: under any
+   arithmetic a count never runs out of fuel once the fuel exceeds twice the number of candidates: exec answers Some --
+   the count ends, normally or with one of the modelled exceptions *)
+Definition term_rule (r : rule) : Prop :=
+  (r = RWigm /\ cf_batch_zero cfg = false) \/ r = RWigmPrf \/ r = RScotland \/ r = RCfer \/ r = RMpls.
 
 Theorem count_terminates (r : rule) (pr : profile) fuel : term_rule r -> NoDup (map pc_cid (pr_cands pr)) ->
   (2 * List.length (pr_cands pr) < Pos.to_nat fuel)%nat ->
@@ -542,7 +880,7 @@ Proof.
   assert (Hnd0: ND A s0) by (unfold ND, s0; cbn [cands set_cands]; rewrite map_map; cbn [cid with_vote]; rewrite cids_init; exact Hnd).
   assert (Hf0: (2 * List.length (cands s0) < Pos.to_nat fuel)%nat) by (unfold s0; cbn [cands set_cands]; rewrite map_length, cands_init_len; exact Hf).
   assert (Ht: exists r1, exec (@crashed A) fuel (rule_cmd A cfg r) s0 = Some r1).
-  { destruct Hr as [[-> Hbz]|[->| ->]]; cbn [rule_cmd]; [apply wigm_total|apply wigm_prf_total|apply scotland_total]; assumption. }
+  { destruct Hr as [[-> Hbz]|[->|[->|[->| ->]]]]; cbn [rule_cmd]; [apply wigm_total|apply wigm_prf_total|apply scotland_total|apply cfer_total|apply mpls_total]; assumption. }
   destruct Ht as [[s1 k1] E1]. rewrite E1. destruct k1; eexists; eexists; reflexivity.
 Qed.
 End Count.
